@@ -23,10 +23,10 @@ struct Observed {
     residual: FmPoint,
 }
 
-fn observe(ts: &[merlin::Transcript], sts: &[Stmt], proofs: &[Proof]) -> Result<Option<Observed>, String> {
+fn observe(ts: &[merlin::Transcript], sts: &[Stmt], proofs: &[Proof], action: VerifyAction) -> Result<Option<Observed>, String> {
     let bs: Vec<FmPoint> = proofs.iter().map(|p| Parts::of(p).to_ref().map(|r| r.b)).collect::<Option<Vec<_>>>().ok_or("undecodable B")?;
     fm::arm();
-    let r = no_panic(|| verify_many(ts, sts, proofs, VerifyAction::VerifyOnly));
+    let r = no_panic(|| verify_many(ts, sts, proofs, action));
     let log = fm::take();
     let ok = r?.is_ok();
     let Some(call) = log.msm.last() else { return Ok(None) };
@@ -57,11 +57,15 @@ pub fn run(ctx: &Ctx, rep: &mut Report) {
         let k = 2 + (b % 4);
         let Some((cases, proofs)) = make_batch(n.max(2), ext, k, b, &mut rng) else { continue };
         let ts: Vec<_> = cases.iter().map(|c| c.transcript()).collect();
-        let sts: Vec<Stmt> = cases.iter().map(|c| c.statement_public()).collect();
-        let descr = json!({"batch": k, "bits": n.max(2), "ext": ext, "aggregations": cases.iter().map(|c| c.cfg.m).collect::<Vec<_>>()});
+        // the verifier role varies: public verifier, or the seed owner recovering while verifying (the factors must
+        // be bound to the responses in both)
+        let action = if b % 2 == 0 { VerifyAction::VerifyOnly } else { VerifyAction::RecoverAndVerify };
+        let sts: Vec<Stmt> = cases.iter().map(|c| if b % 4 >= 2 { c.statement() } else { c.statement_public() }).collect();
+        let descr = json!({"batch": k, "bits": n.max(2), "ext": ext, "aggregations": cases.iter().map(|c| c.cfg.m).collect::<Vec<_>>(), "mode": action_name(action), "seeded_statements": b % 4 >= 2});
+        rep.count(&format!("batches_{}", action_name(action)), 1);
         let replay = |what: &str| json!({"tier": if ctx.thorough() {"thorough"} else {"quick"}, "seed": ctx.seed, "leg": "fm-weights", "case": id, "descr": descr, "step": what});
         // ---- (1) base observation
-        let base = match observe(&ts, &sts, &proofs) {
+        let base = match observe(&ts, &sts, &proofs, action) {
             Ok(Some(o)) => o,
             Ok(None) => {
                 rep.note("C08: honest batch refused before the final check".into());
@@ -101,7 +105,7 @@ pub fn run(ctx: &Ctx, rep: &mut Report) {
                     1 => "s1".to_string(),
                     w => format!("d1[{}]", w - 2),
                 };
-                let Ok(Some(o)) = observe(&ts, &sts, &pr) else { continue };
+                let Ok(Some(o)) = observe(&ts, &sts, &pr, action) else { continue };
                 for j in 0..k {
                     if j == i {
                         continue;
@@ -141,7 +145,7 @@ pub fn run(ctx: &Ctx, rep: &mut Report) {
                         pr[j] = bump_d1(&proofs[j], kk, &delta_j);
                         rep.eval(&("attack", b, i, j, kk, round));
                         rep.count("attack_rounds", 1);
-                        let o = match observe(&ts, &sts, &pr) {
+                        let o = match observe(&ts, &sts, &pr, action) {
                             Ok(Some(o)) => o,
                             _ => break,
                         };
